@@ -34,7 +34,7 @@ class Line:
 
 class ShellScenario:
     def __init__(self, kind, lines, chunks, pool=2, cpu=3, handler=None, end='block', fail_send=None,
-                 start_managed=False, app_close=0, user=None, password=None, init_outcome='ret', gate=None):
+                 start_managed=False, app_close=0, user=None, password=None, init_outcome='ret', gate=None, tail_cut=0):
         self.kind = kind
         self.lines = lines
         self.chunks = chunks            # list of lists of indices into lines
@@ -49,6 +49,7 @@ class ShellScenario:
         self.password = password
         self.init_outcome = init_outcome
         self.gate = gate                # (rid_blocked, rid_until): the adapter call of rid_blocked returns only after the reply of rid_until was written
+        self.tail_cut = tail_cut        # the connection fails MID-LINE: this many bytes of the last line never arrive (its terminator first)
 
     def nworkers(self):
         p = self.pool
@@ -60,6 +61,7 @@ class ShellScenario:
         return {'kind': self.kind, 'lines': [l.text.decode('ascii', 'replace') for l in self.lines], 'chunks': self.chunks, 'pool': self.pool,
                 'cpu': self.cpu, 'handler': self.handler, 'end': self.end, 'fail_send': self.fail_send, 'start_managed': self.start_managed,
                 'app_close': self.app_close, 'user': self.user, 'password': self.password, 'init_outcome': self.init_outcome, 'gate': self.gate,
+                'tail_cut': self.tail_cut,
                 'outcomes': [l.outcome for l in self.lines]}
 
 
@@ -265,6 +267,8 @@ def run(sc, chooser, max_steps=8000, eager=(), fine=False, fine_seed=0):
     for j, ln in enumerate(static_served(sc)):
         log['job_rid'][j] = ln.rid
     stream = [b''.join(sc.lines[i].text for i in ch) for ch in sc.chunks]
+    if sc.tail_cut and stream and sc.chunks[-1]:
+        stream[-1] = stream[-1][:-sc.tail_cut]
     stream = [c for c in stream if c]
     r = Run()
     with shims.install(S, chunks=stream, end=sc.end, fail_send=sc.fail_send, cpu=sc.cpu) as env:
@@ -590,6 +594,8 @@ def delivered(r):
     idx = []
     for ch in r.sc.chunks[:n_chunks]:
         idx += ch
+    if r.sc.tail_cut and n_chunks >= len([c for c in r.sc.chunks if c]) and idx and r.sc.chunks[-1]:
+        idx = idx[:-1]          # the last line never arrived completely
     return [r.sc.lines[i] for i in idx]
 
 
@@ -917,6 +923,10 @@ def oracle_c20(r):
     if not honoured and not sc.app_close and r.status == 'quiescent' and sc.end == 'block' and sc.fail_send is None:
         if r.final['sock_closed'] or r.final['stop']:
             out.append(('the server stopped although no close request had to be honoured', {'kind': 'close_unexpected'}))
+    if not honoured and not sc.app_close and r.status in ('quiescent', 'exited') and r.final['stop']:
+        # whatever happened to the connection: only close() raises the stop flag, and nothing called for it
+        out.append(('the close sequence was started although no complete close request to be honoured was received%s'
+                    % (' (the connection failed in the middle of the last line)' if sc.tail_cut else ''), {'kind': 'close_unexpected'}))
     # I/O failures
     expect_io = 0
     if read_fault and not stop_before_fault and not (honoured or sc.app_close):
